@@ -133,74 +133,107 @@ theorem litInt_spec {m : Mgr} {x : Lit} {y : Int} (h : m.litInt x = .ok y) :
   · simp at h
 
 /-! ### `arr` -/
-theorem fillArr_length (arr mod : List Int) : (fillArr arr mod).length = arr.length := by
-  induction mod generalizing arr with
-  | nil => rfl
-  | cons w r ih => unfold fillArr; split <;> simp [ih]
-
-theorem fillArr_get (mod : List Int) : ∀ (arr : List Int) (i : Nat), 1 ≤ i → i < arr.length →
-    (∀ x ∈ mod, x ≠ 0 ∧ -x ∉ mod) →
-    (fillArr arr mod).getD i 0 = if (i : Int) ∈ mod then 1 else if -(i : Int) ∈ mod then 0 else arr.getD i 0 := by
+theorem fillArr_length : ∀ (mod arr arr' : List Int), fillArr arr mod = some arr' → arr'.length = arr.length := by
+  intro mod
   induction mod with
-  | nil => intro arr i _ _ _; simp [fillArr]
+  | nil => intro arr arr' h; simp [fillArr] at h; rw [h]
   | cons w r ih =>
-    intro arr i h1 hlt hc
+    intro arr arr' h
+    unfold fillArr at h
+    split at h
+    · split at h
+      · simpa using ih _ _ h
+      · simp at h
+    · split at h
+      · simpa using ih _ _ h
+      · simp at h
+
+theorem fillArr_get (mod : List Int) : ∀ (arr arr' : List Int) (i : Nat), fillArr arr mod = some arr' → 1 ≤ i → i < arr.length →
+    (∀ x ∈ mod, x ≠ 0 ∧ -x ∉ mod) →
+    arr'.getD i 0 = if (i : Int) ∈ mod then 1 else if -(i : Int) ∈ mod then 0 else arr.getD i 0 := by
+  induction mod with
+  | nil => intro arr arr' i h _ _ _; simp [fillArr] at h; subst h; simp
+  | cons w r ih =>
+    intro arr arr' i hf h1 hlt hc
     have hcr : ∀ x ∈ r, x ≠ 0 ∧ -x ∉ r := fun x hx =>
       ⟨(hc x (by simp [hx])).1, fun hn => (hc x (by simp [hx])).2 (by simp [hn])⟩
     have hw := hc w (by simp)
-    unfold fillArr
-    split
+    unfold fillArr at hf
+    split at hf
     · rename_i hneg
-      rw [ih _ i h1 (by simpa using hlt) hcr]
-      by_cases hir : (i : Int) ∈ r
-      · rw [if_pos hir, if_pos (List.mem_cons_of_mem _ hir)]
-      · have hiw : (i : Int) ∉ w :: r := by
-          intro h; rcases List.mem_cons.1 h with e | h
-          · omega
-          · exact hir h
-        rw [if_neg hir, if_neg hiw]
-        by_cases hj : (-w).toNat = i
-        · have hwi : w = -(i : Int) := by omega
-          have hmem : -(i : Int) ∈ w :: r := by rw [hwi]; exact List.mem_cons_self
+      split at hf
+      · rw [ih _ _ i hf h1 (by simpa using hlt) hcr]
+        by_cases hir : (i : Int) ∈ r
+        · rw [if_pos hir, if_pos (List.mem_cons_of_mem _ hir)]
+        · have hiw : (i : Int) ∉ w :: r := by
+            intro h; rcases List.mem_cons.1 h with e | h
+            · omega
+            · exact hir h
+          rw [if_neg hir, if_neg hiw]
+          by_cases hj : (-w).toNat = i
+          · have hwi : w = -(i : Int) := by omega
+            have hmem : -(i : Int) ∈ w :: r := by rw [hwi]; exact List.mem_cons_self
+            rw [if_pos hmem]
+            split
+            · rfl
+            · rw [hj]; simp [List.getD_eq_getElem?_getD, hlt]
+          · have m2 : -(i : Int) ∈ w :: r → -(i : Int) ∈ r := by
+              intro h; rcases List.mem_cons.1 h with e | h
+              · omega
+              · exact h
+            by_cases hnr : -(i : Int) ∈ r
+            · rw [if_pos hnr, if_pos (List.mem_cons_of_mem _ hnr)]
+            · rw [if_neg hnr, if_neg (mt m2 hnr)]
+              simp [List.getD_eq_getElem?_getD, List.getElem?_set_ne hj]
+      · simp at hf
+    · rename_i hpos
+      split at hf
+      · rw [ih _ _ i hf h1 (by simpa using hlt) hcr]
+        by_cases hj : w.toNat = i
+        · have hwi : w = (i : Int) := by omega
+          have hmem : (i : Int) ∈ w :: r := by rw [hwi]; exact List.mem_cons_self
           rw [if_pos hmem]
+          have hnr : -(i : Int) ∉ r := by
+            have := hw.2; rw [hwi] at this
+            exact fun h => this (List.mem_cons_of_mem _ h)
           split
           · rfl
           · rw [hj]; simp [List.getD_eq_getElem?_getD, hlt]
-        · have m2 : -(i : Int) ∈ w :: r → -(i : Int) ∈ r := by
+        · have m1 : (i : Int) ∈ w :: r → (i : Int) ∈ r := by
             intro h; rcases List.mem_cons.1 h with e | h
             · omega
             · exact h
-          by_cases hnr : -(i : Int) ∈ r
-          · rw [if_pos hnr, if_pos (List.mem_cons_of_mem _ hnr)]
-          · rw [if_neg hnr, if_neg (mt m2 hnr)]
-            simp [List.getD_eq_getElem?_getD, List.getElem?_set_ne hj]
-    · rename_i hpos
-      rw [ih _ i h1 (by simpa using hlt) hcr]
-      by_cases hj : w.toNat = i
-      · have hwi : w = (i : Int) := by omega
-        have hmem : (i : Int) ∈ w :: r := by rw [hwi]; exact List.mem_cons_self
-        rw [if_pos hmem]
-        have hnr : -(i : Int) ∉ r := by
-          have := hw.2; rw [hwi] at this
-          exact fun h => this (List.mem_cons_of_mem _ h)
-        split
-        · rfl
-        · rw [hj]; simp [List.getD_eq_getElem?_getD, hlt]
-      · have m1 : (i : Int) ∈ w :: r → (i : Int) ∈ r := by
-          intro h; rcases List.mem_cons.1 h with e | h
-          · omega
-          · exact h
-        have m2 : -(i : Int) ∈ w :: r → -(i : Int) ∈ r := by
-          intro h; rcases List.mem_cons.1 h with e | h
-          · omega
-          · exact h
-        by_cases hir : (i : Int) ∈ r
-        · rw [if_pos hir, if_pos (List.mem_cons_of_mem _ hir)]
-        · rw [if_neg hir, if_neg (mt m1 hir)]
-          by_cases hnr : -(i : Int) ∈ r
-          · rw [if_pos hnr, if_pos (List.mem_cons_of_mem _ hnr)]
-          · rw [if_neg hnr, if_neg (mt m2 hnr)]
-            simp [List.getD_eq_getElem?_getD, List.getElem?_set_ne hj]
+          have m2 : -(i : Int) ∈ w :: r → -(i : Int) ∈ r := by
+            intro h; rcases List.mem_cons.1 h with e | h
+            · omega
+            · exact h
+          by_cases hir : (i : Int) ∈ r
+          · rw [if_pos hir, if_pos (List.mem_cons_of_mem _ hir)]
+          · rw [if_neg hir, if_neg (mt m1 hir)]
+            by_cases hnr : -(i : Int) ∈ r
+            · rw [if_pos hnr, if_pos (List.mem_cons_of_mem _ hnr)]
+            · rw [if_neg hnr, if_neg (mt m2 hnr)]
+              simp [List.getD_eq_getElem?_getD, List.getElem?_set_ne hj]
+      · simp at hf
+
+theorem fillArr_in_range : ∀ (mod arr arr' : List Int), fillArr arr mod = some arr' → ∀ w ∈ mod, w.natAbs < arr.length := by
+  intro mod
+  induction mod with
+  | nil => intro arr arr' _ w hw; simp at hw
+  | cons x r ih =>
+    intro arr arr' h w hw
+    unfold fillArr at h
+    split at h
+    · split at h
+      · rcases List.mem_cons.1 hw with e | hw
+        · subst e; omega
+        · simpa using ih _ _ h w hw
+      · simp at h
+    · split at h
+      · rcases List.mem_cons.1 hw with e | hw
+        · subst e; omega
+        · simpa using ih _ _ h w hw
+      · simp at h
 
 /-! ### `self.model` -/
 theorem getModel_setModel (mdl : List (Var × Int)) (v w : Var) (x : Int) :
@@ -274,6 +307,11 @@ theorem solve_spec {m m' : Mgr} {ans : Option (List Int)} {b : Bool} {cnf : List
       have ht : τ l.v = true := by rw [hlt, hs']
       simp [hget, hs', hp, ht]
   | some mod =>
+    simp only at hs
+    cases hfa : fillArr (List.replicate (m.vars.length + 1) 0) mod with
+    | none => rw [hfa] at hs; simp at hs
+    | some arr =>
+    rw [hfa] at hs
     simp at hs
     obtain ⟨rfl, rfl⟩ := hs
     obtain ⟨hsat, hcons⟩ := hsolver
@@ -301,9 +339,9 @@ theorem solve_spec {m m' : Mgr} {ans : Option (List Int)} {b : Bool} {cnf : List
     obtain ⟨i, hi⟩ := lookupIdx_mem (k := 1) hv
     have h1 := (lookupIdx_some hi).1
     have hlt := lookupIdx_lt hi
-    have hget := getModel_storeModel (fillArr (List.replicate (m.vars.length + 1) 0) mod) m.vars 1 m.model v hnd
+    have hget := getModel_storeModel arr m.vars 1 m.model v hnd
     rw [hi] at hget
-    have harr := fillArr_get mod (List.replicate (m.vars.length + 1) 0) i h1 (by simp; omega) hcons
+    have harr := fillArr_get mod (List.replicate (m.vars.length + 1) 0) arr i hfa h1 (by simp; omega) hcons
     simp only [Mgr.value, hget]
     rw [harr]
     have hτv : τ v = decide ((i : Int) ∈ mod) := by rw [hτdef]; simp [Mgr.index, hi]
